@@ -233,6 +233,11 @@ def axis_enum():
                               {"fg": sp, "bg": "BLUE", "eff": {}, "text": "q"}]}
     for sp in sample:
         yield {"chunks": [{"fg": sp, "bg": sp, "eff": {"bold": True}, "no_color": True, "text": "plain"}]}
+    # long texts: hundreds of chunks (neighbours differ in colour, so nothing is merged)
+    for n in (129, 300, 1000):
+        cyc = [{"fg": "RED", "bg": None, "eff": {}}, {"fg": 200, "bg": None, "eff": {"bold": True}},
+               {"fg": None, "bg": "g5", "eff": {}}, {"fg": None, "bg": None, "eff": {}}]
+        yield {"chunks": [dict(cyc[i % 4], text="w%d" % i) for i in range(n)]}
     for sp in INVALID:
         yield {"invalid": {"spec": sp, "where": "fg"}}
         yield {"invalid": {"spec": sp, "where": "bg"}}
